@@ -132,6 +132,11 @@ def _declared(b):
 
 
 def attempt(key, subj, raw):
+    o, to = sc.guarded(lambda: _attempt(key, subj, raw), 5.0)
+    return 'no verdict within 5 s' if to else o
+
+
+def _attempt(key, subj, raw):
     """'accepted' | 'falsy' | 'raised:<type>'"""
     try:
         s = pgpy.PGPSignature.from_blob(raw)
